@@ -435,32 +435,36 @@ Proof.
 Qed.
 
 Lemma inv_step st e st' :
-  Inv st -> (forall i, snd e = Arrive i -> i = i0) -> qstep f D st e = Some st' -> Inv st'.
+  Inv st -> (forall i, snd e = Arrive i -> i = i0) -> (forall i d, snd e <> Retry i d) ->
+  qstep f D st e = Some st' -> Inv st'.
 Proof.
-  intros I Hi. unfold qstep.
+  intros I Hi Hnr. unfold qstep.
   destruct ((q_now st <=? fst e) && forallb (fun d => fst e <=? d) (dues st)) eqn:Hb; [|discriminate].
   apply andb_true_iff in Hb as [Hn Hd]. apply Z.leb_le in Hn. destruct e as [t ev]. cbn [fst snd] in *.
-  destruct ev as [i|i|d|].
+  destruct ev as [i|i|d| |i d].
   - rewrite (Hi i eq_refl). now apply inv_arrive.
   - now apply inv_fire.
   - now apply inv_get.
   - now apply inv_done.
+  - exfalso. exact (Hnr i d eq_refl).
 Qed.
 
 Lemma inv_exec tr : forall st st',
-  Inv st -> arrives_only i0 tr -> qexec f D st tr = Some st' -> Inv st'.
+  Inv st -> arrives_only i0 tr -> no_retry tr -> qexec f D st tr = Some st' -> Inv st'.
 Proof.
-  induction tr as [|e tr IH]; intros st st' I Ha Hx; cbn [qexec] in Hx.
+  induction tr as [|e tr IH]; intros st st' I Ha Hn Hx; cbn [qexec] in Hx.
   - injection Hx as <-. exact I.
   - destruct (qstep f D st e) as [st1|] eqn:E; [|discriminate].
-    apply (IH st1 st'); [|intros t i Hin; apply (Ha t i); now right|exact Hx].
-    eapply inv_step; [exact I| |exact E].
-    intros i Hi. destruct e as [t ev]. cbn [snd] in Hi. subst ev. apply (Ha t i). now left.
+    apply (IH st1 st'); [|intros t i Hin; apply (Ha t i); now right
+                         |intros t i d Hin; apply (Hn t i d); now right|exact Hx].
+    eapply inv_step; [exact I| | |exact E].
+    + intros i Hi. destruct e as [t ev]. cbn [snd] in Hi. subst ev. apply (Ha t i). now left.
+    + intros i d Hi. destruct e as [t ev]. cbn [snd] in Hi. subst ev. apply (Hn t i d). now left.
 Qed.
 
 (* (4) on the queue model, one kind of item, callbacks shorter than the interval *)
 Theorem queue_single_kind last0 t0 tr st :
-  arrives_only i0 tr ->
+  arrives_only i0 tr -> no_retry tr ->
   qexec f D (q_init last0 t0) tr = Some st ->
   (* every hand-over to the callback happens at the grant instant of an earlier notification *)
   (forall post i s pre, q_log st = post ++ ORun i s :: pre -> exists t, In (OArrive i t s) pre) /\
@@ -471,7 +475,7 @@ Theorem queue_single_kind last0 t0 tr st :
   (forall post i t g pre, q_log st = post ++ OArrive i t g :: pre ->
      (exists s, In (ORun i s) post /\ t <= s <= g) \/ (q_now st <= g /\ pending_by i g st)).
 Proof.
-  intros Ha Hx. pose proof (inv_exec tr _ _ (inv_init last0 t0) Ha Hx) as I.
+  intros Ha Hn Hx. pose proof (inv_exec tr _ _ (inv_init last0 t0) Ha Hn Hx) as I.
   split; [exact (iv_A st I)|]. split; [|exact (iv_C st I)].
   intros l3 i s2 l2 j s1 l1 E. destruct (iv_runs st I) as [Hs _].
   rewrite E, runs_app in Hs. apply spaced_desc_app_r in Hs. cbn [runs] in Hs.
@@ -481,12 +485,12 @@ Qed.
 
 (* once the grant instant is past, the hand-over has happened *)
 Corollary queue_single_kind_served last0 t0 tr st post i t g pre :
-  arrives_only i0 tr ->
+  arrives_only i0 tr -> no_retry tr ->
   qexec f D (q_init last0 t0) tr = Some st ->
   q_log st = post ++ OArrive i t g :: pre -> g < q_now st ->
   exists s, In (ORun i s) post /\ t <= s <= g.
 Proof.
-  intros Ha Hx E Hlt. destruct (queue_single_kind last0 t0 tr st Ha Hx) as (_ & _ & HC).
+  intros Ha Hn Hx E Hlt. destruct (queue_single_kind last0 t0 tr st Ha Hn Hx) as (_ & _ & HC).
   destruct (HC _ _ _ _ _ E) as [H|(H & _)]; [exact H|lia].
 Qed.
 
@@ -511,16 +515,16 @@ Qed.
 
 Theorem queue_reload interval D : 0 < interval -> 0 <= D -> D < interval ->
   forall i0 last0 t0 tr st,
-  arrives_only i0 tr ->
+  arrives_only i0 tr -> no_retry tr ->
   qexec (reload_when interval) D (q_init last0 t0) tr = Some st ->
   (forall post i s pre, q_log st = post ++ ORun i s :: pre -> exists t, In (OArrive i t s) pre) /\
   (forall l3 i s2 l2 j s1 l1, q_log st = l3 ++ ORun i s2 :: l2 ++ ORun j s1 :: l1 -> s1 + interval <= s2) /\
   (forall post i t g pre, q_log st = post ++ OArrive i t g :: pre ->
      (exists s, In (ORun i s) post /\ t <= s <= g) \/ (q_now st <= g /\ pending_by i g st)).
 Proof.
-  intros Hi HD0 HD i0 last0 t0 tr st Ha Hx.
+  intros Hi HD0 HD i0 last0 t0 tr st Ha Hn Hx.
   rewrite (qexec_ext _ _ (reload_is_reconciler interval)) in Hx.
-  exact (queue_single_kind interval 0 D Hi (Z.le_refl 0) HD0 HD i0 last0 t0 tr st Ha Hx).
+  exact (queue_single_kind interval 0 D Hi (Z.le_refl 0) HD0 HD i0 last0 t0 tr st Ha Hn Hx).
 Qed.
 
 (* ---------- any number of kinds, any callback duration, any limiter: nothing is dropped ---------- *)
@@ -611,12 +615,10 @@ Proof.
   - intros post i t g pre H. destruct post; discriminate.
 Qed.
 
-Lemma ninv_step f D st e st' : NInv st -> qstep f D st e = Some st' -> NInv st'.
+Lemma ninv_arrive f D st t i st' :
+  NInv st -> qevent_apply f D st t (Arrive i) = Some st' -> NInv st'.
 Proof.
-  intros [Hd Hs]. unfold qstep.
-  destruct ((q_now st <=? fst e) && forallb (fun d => fst e <=? d) (dues st)); [|discriminate].
-  destruct e as [t ev]. cbn [fst snd]. destruct ev as [i|i|d|]; cbn [qevent_apply].
-  - (* Arrive *)
+  intros [Hd Hs]. cbn [qevent_apply].
     set (r := f (q_last st) t).
     set (st1 := {| q_now := t; q_last := snd r; q_wait := q_wait st; q_fifo := q_fifo st;
                    q_dirty := q_dirty st; q_proc := q_proc st;
@@ -646,6 +648,20 @@ Proof.
               ** apply wait_find_insert_same.
               ** rewrite wait_find_insert_other by exact Hne. exact Hw.
            ++ right. right. exact Hm.
+Qed.
+
+Lemma retry_is_arrive f D st t i d :
+  qevent_apply f D st t (Retry i d) = qevent_apply (fun _ _ => (d, q_last st)) D st t (Arrive i).
+Proof. reflexivity. Qed.
+
+Lemma ninv_step f D st e st' : NInv st -> qstep f D st e = Some st' -> NInv st'.
+Proof.
+  intros I. pose proof I as [Hd Hs]. unfold qstep.
+  destruct ((q_now st <=? fst e) && forallb (fun d => fst e <=? d) (dues st)); [|discriminate].
+  destruct e as [t ev]. cbn [fst snd]. destruct ev as [i|i|d| |i d0].
+  5:{ rewrite retry_is_arrive. apply ninv_arrive. exact I. }
+  1:{ apply ninv_arrive. exact I. }
+  all: cbn [qevent_apply].
   - (* Fire *)
     destruct (wait_find i (q_wait st)) as [r|] eqn:Ef; [|discriminate].
     destruct (r <=? t); intros [= <-].
